@@ -3,11 +3,11 @@
    nat, N, Z, positive, comparison stay the extracted inductive types. *)
 Require Extraction.
 Require Import ExtrOcamlBasic.
-From BPT Require Import Common.Base Rust.Arena Rust.ArenaSpec Rust.Tree Rust.Heap Rust.Readers Rust.Run Rust.Damage Rust.HeapOps.
+From BPT Require Import Common.Base Rust.Arena Rust.ArenaSpec Rust.Tree Rust.Heap Rust.Readers Rust.Run Rust.Damage Rust.HeapOps Rust.HeapFast.
 Extraction Language OCaml.
 Set Extraction AccessOpaque.
 Extraction "model.ml"
   Base.NULL Base.mkKey
   ArenaSpec.astep ArenaSpec.arun Arena.a_new
   Tree.b_new Tree.b_clear Heap.flatten Run.step Run.run
-  Damage.apply_edit Damage.hstep HeapOps.mut_A.
+  Damage.apply_edit Damage.hstep HeapOps.mut_A HeapFast.flatten_fast.
